@@ -438,6 +438,95 @@ def check_request(W, rec, rng):
             rec.violation("C10/spurious-413-under-generous-limits", f"{case}", case, monitor="completeness")
 
 
+def reuse_and_sharing(W, rec, rng):
+    """History: a FormDataParser is kept and its limits are changed between two requests - every parse obeys the
+    limits the parser has at that moment.  Schedule: one MultiPartParser with a memory limit serves two requests on
+    two threads whose reads alternate - the over-limit field of one request is refused whatever the other is doing."""
+    import threading
+
+    from werkzeug.exceptions import RequestEntityTooLarge
+
+    FP = W["FP"]
+
+    def outcome(fn):
+        try:
+            out = fn()
+            form, files = out[-2], out[-1]
+            return ("ok", [(a, v) for a, v in form.items(multi=True)], [(a, f.read()) for a, f in files.items(multi=True)])
+        except RequestEntityTooLarge:
+            return ("413",)
+        except Exception as e:  # noqa: BLE001
+            return ("EXC", type(e).__name__, str(e)[:80])
+
+    big = mkbody([("field", b"big", b"x" * 1000), ("field", b"z", b"tail")])
+    five = mkbody([("field", b"n%d" % i, b"v") for i in range(5)])
+    small = mkbody([("field", b"a", b"1"), ("file", b"f", b"data")])
+    opts = {"boundary": BND.decode()}
+    # ---- limits changed on a parser that has already parsed a multipart body
+    for first_mem, first_parts in ((None, None), (5000, 50), (100, 2)):
+        rec.case()
+        rec.nontrivial(("limits-changed", first_mem, first_parts))
+        case = {"path": "FormDataParser-reused", "first_limits": [first_mem, first_parts]}
+        fdp = FP.FormDataParser(max_form_memory_size=first_mem, max_form_parts=first_parts)
+        outcome(lambda: fdp.parse(Short(small, 7), "multipart/form-data", len(small), opts))
+        rec.observe("parser_limits_changed_between_requests")
+        fdp.max_form_memory_size, fdp.max_form_parts = 100, None
+        r1 = outcome(lambda: fdp.parse(Short(big, 50), "multipart/form-data", len(big), opts))
+        fdp.max_form_memory_size, fdp.max_form_parts = None, 2
+        r2 = outcome(lambda: fdp.parse(Short(five, 50), "multipart/form-data", len(five), opts))
+        fdp.max_form_memory_size, fdp.max_form_parts = None, None
+        r3 = outcome(lambda: fdp.parse(Short(big, 50), "multipart/form-data", len(big), opts))
+        if r1 != ("413",):
+            rec.violation("C10/E1-oversize-field-accepted", f"max_form_memory_size set to 100 on a parser that had {first_mem}: a 1000 byte field gave {r1[0]}; {case}", case, monitor="E1")
+        elif r2 != ("413",):
+            rec.violation("C10/E1-surplus-parts-accepted", f"max_form_parts set to 2 on a parser that had {first_parts}: 5 parts gave {r2[0]}; {case}", case, monitor="E1")
+        elif r3[0] != "ok" or len(r3[1]) != 2:
+            rec.violation("C10/spurious-413-under-generous-limits", f"limits removed again, the body is refused or altered: {str(r3)[:120]}; {case}", case, monitor="completeness")
+    # ---- one limited parser, two requests whose reads alternate
+    class Lockstep(io.RawIOBase):
+        def __init__(self, data, k, barrier):
+            self.data, self.k, self.pos, self.barrier = data, k, 0, barrier
+
+        def readable(self):
+            return True
+
+        def read(self, n=-1):
+            try:
+                self.barrier.wait(timeout=5)
+            except threading.BrokenBarrierError:
+                pass
+            n = self.k if n is None or n < 0 else min(n, self.k)
+            out = self.data[self.pos:self.pos + n]
+            self.pos += len(out)
+            if not out:
+                self.barrier.abort()
+            return out
+
+    for rnd in range(4):
+        rec.case()
+        rec.nontrivial(("shared-limited-parser", rnd))
+        rec.observe("shared_limited_parser_runs")
+        case = {"path": "MultiPartParser-shared", "round": rnd}
+        shared = FP.MultiPartParser(max_form_memory_size=100, buffer_size=64)
+        nother = 70
+        other = mkbody([("field", b"o%d" % i, payload(rng, 5)) for i in range(nother)])  # a new field starts at nearly every read
+        barrier = threading.Barrier(2)
+        res = [None, None]
+
+        def work(i, body):
+            res[i] = outcome(lambda: shared.parse(Lockstep(body, (20, 50)[i], barrier), BND, len(body)))
+
+        ths = [threading.Thread(target=work, args=(0, big)), threading.Thread(target=work, args=(1, other))]
+        for t_ in ths:
+            t_.start()
+        for t_ in ths:
+            t_.join(30)
+        if res[0] != ("413",):
+            rec.violation("C10/E1-oversize-field-accepted", f"a 1000 byte field under max_form_memory_size=100 gave {str(res[0])[:100]} while another request was parsed by the same parser object; {case}", case, monitor="E1")
+        elif res[1] is None or res[1][0] != "ok" or len(res[1][1]) != nother:
+            rec.violation("C10/E3-limits-changed-the-result", f"the other request on the shared parser: {str(res[1])[:160]}; {case}", case, monitor="E3")
+
+
 def world():
     from werkzeug import formparser as FP
     from werkzeug.sansio import multipart as M
@@ -464,6 +553,10 @@ def run(shard, rec, rng):
         check_parser(W, rec, rng, hook)
     rec.observe("framehook_events", hook.hook.events)
     hook.hook.close()
+    contracts.LOG.take()
+    if shard["index"] % 4 == 0:
+        reuse_and_sharing(W, rec, rng)
+        contracts.LOG.take()
     for i in range(cfg["request"]):
         check_request(W, rec, rng)
     rec.sample({"path": "MultiPartParser", "parts": [["field", "n0", "64 bytes"], ["file", "n1", "65 bytes"]], "mem": 64, "max_parts": 2, "buffer_size": 63, "short": 2})
